@@ -86,6 +86,22 @@ var FragHTML = []string{
 	"alert(1)", "x=1", "a=b ", "onclick=alert(1)", "href=javascript:alert(1)", "style=x", "<a b='", "<a b=\"", "<a b=`",
 }
 
+// RuneAliases: multi-byte UTF-8 characters whose code point, truncated to its low 8 bits,
+// equals a structural ASCII byte (U+013D -> '=', U+043C -> '<', ...). Code that iterates a
+// string by rune and converts to byte aliases them onto the structural byte.
+var RuneAliases = []string{"\u013c", "\u013d", "\u013e", "\u0122", "\u0127", "\u0160", "\u012f", "\u0120", "\u0100", "\u043c", "\u043d", "\u043e", "\u0422", "\u0427", "\u0460",
+	"\u012d", "\u012a", "\u0123", "\u013b", "\u0140", "\u0124", "\u015c", "\u010a", "\u0109"}
+
+// BOM and other multi-byte material placed at offset 0 or across the 31-byte clip.
+const BOM = "\xef\xbb\xbf"
+
+func init() {
+	FragHTML = append(FragHTML, RuneAliases...)
+	FragSQL = append(FragSQL, RuneAliases...)
+	FragHTML = append(FragHTML, BOM, "\xc4\xb1", "\xc5\xbf", "\xc3\xa9", "\xf0\x9f\x98\x80")
+	FragSQL = append(FragSQL, BOM, "\xc3\xa9", "\xf0\x9f\x98\x80", "\xe2\x82\xac", "natural", "right", "outer", "full", "waitfor delay", "order by", "group by", "join`", "into outfile`", "delay.", "by.", "{``", "{`", "{ ``")
+}
+
 // BytePiece draws one arbitrary byte as a string.
 func bytePiece() *rapid.Generator[string] {
 	return rapid.Custom(func(t *rapid.T) string { return string([]byte{rapid.Byte().Draw(t, "b")}) })
